@@ -105,13 +105,19 @@ func evalExpr(expr string, update bool, names map[string]string, values val.Item
 }
 
 func (p *c16) reserved(x *res, words []string, ctx *runner.Ctx) {
-	item := val.Item{"a": val.Str("x"), "l": val.List(val.Str("x"))}
+	items := []val.Item{{"a": val.Str("x"), "l": val.List(val.Str("x"))}, {"zzz": val.Str("only an unrelated attribute")}}
 	for _, w := range words {
 		variants := []string{w, strings.ToLower(w), w[:1] + strings.ToLower(w[1:])}
 		for vi, wv := range variants {
-			for _, pos := range c16Positions {
+			for pi, pos := range c16Positions {
 				expr := pos.mk(wv)
 				ctx.Trace("reserved %q", expr)
+				// against an item that has the other attributes the expression names, and (rotating) against
+				// one that has none of them: detection must not depend on the stored data
+				item := items[0]
+				if (vi+pi)%2 == 1 {
+					item = items[1]
+				}
 				got, msg, site := evalExpr(expr, pos.update, nil, neededValues(expr), item)
 				x.r.Evals++
 				x.fp(true, "R1|%s|%s|%d", pos.name, w, vi)
@@ -120,6 +126,10 @@ func (p *c16) reserved(x *res, words []string, ctx *runner.Ctx) {
 				case "panic":
 					x.viol("runtime-panic", site, fmt.Sprintf("reserved word %s at %s: %q panics at %s: %s", w, pos.name, expr, site, msg), wit)
 				case "ok":
+					if pos.update && (vi+pi)%2 == 1 {
+						// on the item without the source attributes an update may legitimately fail for other
+						// reasons, but it cannot succeed either; fall through to the violation
+					}
 					x.viol("reserved-word-accepted", pos.name+"/"+[]string{"upper", "lower", "capitalized"}[vi], fmt.Sprintf("reserved word %q used as a bare attribute name (%s) is accepted: %q", wv, pos.name, expr), wit)
 				}
 				// converse through an alias: must be accepted
